@@ -189,6 +189,23 @@ def handle_scenario(c, inst, props):
         terms_ret = [inst["terms"][i] for i in active]
         c.check("c07.A.cut_after_first_terminal_event", not any(terms_ret[:-1]) and bool(terminate) == (len(terms_ret) > 0 and terms_ret[-1]), info=dict(terms=terms_ret, terminate=bool(terminate)))
         c.check("c07.A.returned_event_objects_match_indices", all(revs[j] is events[i] for j, i in enumerate(active)))
+    if "C09" in props:
+        terms_ret = [inst["terms"][i] for i in active]
+        c.check("c09.A.only_events_up_to_the_first_terminal_one_are_returned", not any(terms_ret[:-1]) and bool(terminate) == (len(terms_ret) > 0 and terms_ret[-1]),
+                info=dict(terms=terms_ret, terminate=bool(terminate)))
+        c.check("c09.A.returned_in_integration_order", c.all([c.le(0, sw * (roots[j + 1] - roots[j]), 64) for j in range(len(active) - 1)]))
+        if inst["mode"] == "exact":
+            # the earliest (along the direction of integration) located terminal crossing ends the list; nothing beyond it is returned
+            tcands = []
+            for i in range(E):
+                if inst["terms"][i] and bool((roots_true[i] - t_prev) * (t_next - roots_true[i]) > 0) and (inst["dirs"][i] == 0 or bool(alphas[i] * w * inst["dirs"][i] > 0)):
+                    tcands.append(i)
+            if tcands:
+                c.check("c09.A.terminates_when_a_terminal_crossing_is_located", bool(terminate) and len(active) > 0, info=dict(active=active))
+                if terminate and active:
+                    last = roots[-1]
+                    c.check("c09.A.stops_at_the_earliest_terminal_crossing", c.all([c.le(0, sw * (roots_true[i] - last), 64) for i in tcands]))
+                    c.check("c09.A.nothing_beyond_the_terminal_crossing_is_returned", c.all([c.le(0, sw * (last - roots[j]), 64) for j in range(len(active))]))
     if "C08" in props and inst["mode"] == "exact":
         # completeness: an exactly located, strictly interior crossing in a requested direction is returned, unless cut by an earlier terminal event
         term_roots = [roots[j] for j, i in enumerate(active) if inst["terms"][i]]
